@@ -400,7 +400,10 @@ EXPORT const ShimAccess* SHIM(log_end)(void* h, uint32_t* count) {
     return c->log.data();
 }
 EXPORT int SHIM(decode_info)(uint16_t opcode, char* name, int name_len) {
-    auto m = Decode<Interpreter>(opcode);
+    // the table the interpreter really dispatches through (Interpreter's constructor builds it with this very call),
+    // not a fresh Decode<>() of the word
+    static const auto table = GetDecoderTable<Interpreter>();
+    const auto& m = table[opcode];
     if (name && name_len > 0) {
         std::strncpy(name, m.GetName(), name_len - 1);
         name[name_len - 1] = 0;
